@@ -137,6 +137,18 @@ claim("C12", "other",
       "decision-table extraction from MIR (incl. closures) + ordering enumeration + writer/caller inventories + call-graph",
       "DESIGN.md §3 C12")
 
+claim("C13", "other",
+      "Publication discipline decided on the extracted table of update_nodes_liveness and its closures: single publisher "
+      "(field-use inventory), send iff whole-map inequality previous != current with previous := current on exactly those "
+      "paths, compared map = live_nodes() keyed by full member id -> max_version, sent map = same keys filtered by the extra "
+      "predicate (all four predicate cases) with clones of the current state, accessors clone the receiver paired with the "
+      "sender.",
+      "'After every evaluation the held value is exact' additionally needs predicate flips to imply a max-version change "
+      "(true for predicates over key-values by C04/R04.1; documented otherwise). HashMap equality and tokio watch semantics "
+      "assumed.",
+      "decision-table extraction from MIR (incl. closure bodies) + field-use inventory",
+      "DESIGN.md §3 C13")
+
 ALL = ["C%02d" % i for i in range(1, 21)]
 PENDING_REASON = "check under construction in this session (rules designed in DESIGN.md §3, not yet armed)"
 
